@@ -27,6 +27,7 @@ type c05Case struct {
 	Fwd   Fwd
 	Fees  []FeeSpec
 	Amt   string
+	Pre   []Op // module configuration / prior state the case starts from (applied on both stands)
 }
 
 func nb(n int, fill byte) []byte {
@@ -52,7 +53,7 @@ func (w *World) c05Cases(full bool) []c05Case {
 				if !full && fi == 1 && a == "1" {
 					continue
 				}
-				out = append(out, c05Case{fmt.Sprintf("%s/fee%d/amt=%s", name, fi, a), f, fe, a})
+				out = append(out, c05Case{Label: fmt.Sprintf("%s/fee%d/amt=%s", name, fi, a), Fwd: f, Fees: fe, Amt: a})
 			}
 		}
 	}
@@ -130,6 +131,18 @@ func (w *World) c05Cases(full bool) []c05Case {
 		{"dust", []byte(w.Dust.String())}, {"orb", []byte(w.Orb.String())}, {"invalid", []byte("noble1invalid")}, {"empty", nil}} {
 		add(fmt.Sprintf("internal(%s)", r.n), Fwd{Kind: "internal", To: string(r.b)})
 	}
+	// a chain on which a SYNTHETIC Hyperlane token exists and the orbiter account holds some of its denomination (the
+	// example application enables collateral tokens only; the fixture enables both): "the request carries the post-action
+	// amount AND DENOM" — a request naming a token that moves another coin than the transferred one must not go out
+	// (seeds C16f, C05h, C16h); the ordinary routes must be unaffected by that configuration
+	synPre := []Op{OpEnv("hyp-synthetic")}
+	for _, f := range []Fwd{w.FwdHypSyn(), w.FwdHyp(1), w.FwdCCTP(0), w.FwdInternal(w.Bob)} {
+		for fi, fe := range feesM {
+			for _, a := range []string{"1000", "1", "1001"} {
+				out = append(out, c05Case{Label: fmt.Sprintf("synthetic-token-exists:%s/fee%d/amt=%s", f, fi, a), Fwd: f, Fees: fe, Amt: a, Pre: synPre})
+			}
+		}
+	}
 	return out
 }
 
@@ -177,11 +190,16 @@ func c05RunCase(rep *Report, w *World, in *Instr, c c05Case) {
 	sig := c.Label
 	group := c.Fwd.Kind
 	replay := mustJSON(map[string]any{"ops": []Op{{Label: c.Label, Pkt: &pkt}}, "expect": []replayExpect{{Kind: "no_panic", Want: true}}})
-	ctx := Branch(w.Ctx)
+	ctx, fctx := Branch(w.Ctx), Branch(w.Ctx)
+	for _, op := range c.Pre {
+		if ra, rb := w.Apply(ctx, op), w.Apply(fctx, op); !ra.Succeeded() || !rb.Succeeded() {
+			rep.HarnessError("C05 case %s: state construction failed at %s", c.Label, op.Label)
+			return
+		}
+	}
 	r := in.Recv(ctx, pkt, nil, "")
 	rep.Count("evaluations", 1)
 	// the same packet on the application's own stack (typed events)
-	fctx := Branch(w.Ctx)
 	rf := w.Recv(fctx, pkt)
 	if r.Panic != "" || rf.Panic != "" {
 		rep.Outcome("panic")
